@@ -638,6 +638,8 @@ structure NumModel where
   ofTok : Text → N
   /-- Python `f"{x}"` = `repr(x)` of a float -/
   repr : N → Text
+  /-- Python `math.isfinite(x)` (since the repair of F16 `TreeToOperation.time` raises `ValueError` otherwise) -/
+  finite : N → Bool
 
 structure Operation (ν : NumModel) where
   command : Text
@@ -665,9 +667,23 @@ def interp (ν : NumModel) : RawCmd → Command ν
   | .time c t => .op (mkTime ν c (ν.ofTok t))
   | .console s => .console s
 
+/-- the time of the operation (if it has one) is a finite float -/
+def timeFinite (ν : NumModel) : RawCmd → Bool
+  | .full _ _ t => ν.finite (ν.ofTok t)
+  | .time _ t => ν.finite (ν.ofTok t)
+  | _ => true
+
+/-- the transformer: `TreeToOperation.time` raises `ValueError` for a time literal that overflows to `inf`
+(`ELAPSE 1e999`).  Modelled on the commands that are returned; the one case this does not see — an operation
+with such a time that a multiplier `x0` / `x-1` then drops — is outside the model (the harness skips it). -/
+def interpAll (ν : NumModel) (rs : List RawCmd) : Except Err (List (Command ν)) :=
+  if rs.all (timeFinite ν) then .ok (rs.map (interp ν)) else .error .valueError
+
 /-- `parse_dsl_to_command` -/
 def parseText (ν : NumModel) (s : Text) : Except Err (List (Command ν)) :=
-  (parseRaw s).map (List.map (interp ν))
+  match parseRaw s with
+  | .error e => .error e
+  | .ok rs => interpAll ν rs
 
 /-- the printed form of an operation: the `expr` string `TreeToOperation` built -/
 def renderText {ν : NumModel} (o : Operation ν) : Text := o.expr
@@ -687,6 +703,7 @@ Python float; false for `inf`/`nan`, known finding F16) -/
 structure NumOk (ν : NumModel) (x : ν.N) : Prop where
   tok : numTokOk (ν.repr x) = true
   roundtrip : ν.ofTok (ν.repr x) = x
+  fin : ν.finite x = true
 
 /-- the operations `TreeToOperation` can build: command a `WORD`, name the inside of an
 `ESCAPED_STRING` (any text without newline in which every `"` is escaped and that does not end in an odd
@@ -743,14 +760,17 @@ def parseRuntimeText (ν : NumModel) (Y : YamlModel) (s : Text) :
          | [] => none
          | c :: cs => if c == '\n' then none
                       else (splitHeader cs).map fun (p : Text × Text) => (c :: p.1, p.2)) with
-  | none => (parseRaw s).map fun (cmds : List RawCmd) => (Y.empty, cmds.map (interp ν))
+  | none => (parseText ν s).map fun (cmds : List (Command ν)) => (Y.empty, cmds)
   | some (ctx, rest) =>
     match parseRawWith patHdr rest with
     | .error e => .error e
-    | .ok cmds =>
-      match Y.load ctx with
-      | none => .error .yaml
-      | some m => .ok (m, cmds.map (interp ν))
+    | .ok raw =>
+      match interpAll ν raw with        -- the body is transformed before `simaple` loads the header
+      | .error e => .error e
+      | .ok cmds =>
+        match Y.load ctx with
+        | none => .error .yaml
+        | some m => .ok (m, cmds)
 
 def joinLines : List Text → Text
   | [] => []
@@ -764,7 +784,39 @@ def renderPlanText {ν : NumModel} (dumped : Text) (cmds : List (Command ν)) : 
 
 /-! ## instance used by the driver: numbers and YAML kept as text -/
 
-def tokNum : NumModel := ⟨Text, id, id⟩
+def digitsVal (ds : Text) : Nat := ds.foldl (fun a c => a * 10 + (c.toNat - '0'.toNat)) 0
+
+/-- is Python's `float(token)` finite?  IEEE double with correct rounding (ties to even): the result is `inf`
+exactly when `|x| ≥ 2^1024 - 2^970` (half an ulp above the largest double, whose mantissa is odd). -/
+def tokFinite (t : Text) : Bool :=
+  let t := match t with
+    | c :: r => if isSign c then r else t
+    | [] => []
+  let ip := spanP Char.isDigit t
+  let fp : Text × Text := match ip.2 with
+    | '.' :: r => spanP Char.isDigit r
+    | _ => ([], ip.2)
+  let expo : Int := match fp.2 with
+    | e :: r =>
+      if isExpChar e then
+        (match r with
+         | '-' :: ds => - (digitsVal ds : Int)
+         | '+' :: ds => (digitsVal ds : Int)
+         | ds => (digitsVal ds : Int))
+      else 0
+    | [] => 0
+  let mant := digitsVal (ip.1 ++ fp.1)           -- |x| = mant * 10 ^ (expo - |fraction digits|)
+  if mant == 0 then true
+  else
+    let e10 : Int := expo - fp.1.length
+    let mag : Int := e10 + (Nat.toDigits 10 mant).length      -- 10^(mag-1) ≤ |x| < 10^mag
+    if mag > 310 then false
+    else if mag < 300 then true
+    else
+      let thr : Nat := 2 ^ 1024 - 2 ^ 970
+      if e10 ≥ 0 then decide (mant * 10 ^ e10.toNat < thr) else decide (mant < thr * 10 ^ (-e10).toNat)
+
+def tokNum : NumModel := ⟨Text, id, id, tokFinite⟩
 def rawYaml : YamlModel := ⟨Text, some, []⟩
 
 end Simaple.Dsl
